@@ -58,11 +58,22 @@ func (interp *Interpreter) buildOk(ctx *build.Context, name, src string) (bool, 
 // buildLineOk returns true if line is not a build constraint or
 // if build constraint is satisfied.
 func buildLineOk(ctx *build.Context, line string) (ok bool) {
-	if len(line) < 7 || line[:7] != "+build " {
+	// As for the toolchain, white space before +build is not significant,
+	// and +build must be followed by white space or by the end of the line.
+	line = strings.TrimSpace(line)
+	if !strings.HasPrefix(line, "+build") {
+		return true
+	}
+	line = line[len("+build"):]
+	if line != "" && len(strings.TrimSpace(line)) == len(line) {
 		return true
 	}
 	// In line, evaluate the OR of space-separated options
-	options := strings.Split(strings.TrimSpace(line[6:]), " ")
+	options := strings.Fields(line)
+	if len(options) == 0 {
+		// A line without option stands for "ignore".
+		return buildTagOk(ctx, "ignore")
+	}
 	for _, o := range options {
 		if ok = buildOptionOk(ctx, o); ok {
 			break
